@@ -18,14 +18,14 @@ open SpsdkVerif.Crypto (HashAlg SigAlg CryptoOps CryptoLaws Bytes)
 
 namespace Gen
 export SpsdkVerif.Generated.RotTypes (RotRow rotRows rotClassTypes pfrRkhtTypes cbV1HeaderFormat cbV1HeaderWidths cbV1Signature
-  cbV1Alignment cbV1HeaderOrder cbV1CertLenFormat cbV21HeaderFormat cbV21HeaderWidths cbV21Magic cbV21HeaderOrder rkhtV1Slots
+  cbV1Alignment cbV21HeaderFormat cbV21HeaderWidths cbV21Magic rkhtV1Slots
   rkhV1Size rkhtMaxKeys rsaHashName rkrCaBit rkrUsedShift rkrCountShift rkrCurveBits rkrParseCaMask rkrParseUsedMask
   rkrParseUsedShift rkrParseCountMask rkrParseCountShift rkrParseHashLen rkrParseCurveMask rkrHashAlg iskUserDataBit
   iskCurveBits iskNoOffsetMagic iskNoOffsetSigOffset iskParseUserDataMask iskParseKeyLen ahabTagSrkTable ahabTagSrkRecord
   ahabTagSrkData ahabSignRsaPssV1 ahabSignEcdsaV1 ahabHashTagsV1 ahabSignRsaPssV2 ahabSignEcdsaV2 ahabHashTagsV2 ahabEccKeyType
   ahabRsaKeyType ahabKeySizes ahabCaMask ahabTableVersion ahabTableVersionV2 ahabTableHash ahabTableHashV2 ahabRecordsCnt
-  ahabV2ParamsLen ahabSrkDataVersion ahabEccHashByBits habTagKeyPublic habAlgPkcs1 habAlgEcdsa habEccKeyType habRsaItemFormat
-  habEccItemFormat habHeaderFormat habTagCrt datRsaExpLength datRsaTableLen datEccHashSizes datFlagsAlwaysBit datFlagsUsedShift
+  ahabV2ParamsLen ahabSrkDataVersion ahabEccHashByBits habTagKeyPublic habAlgPkcs1 habAlgEcdsa habEccKeyType
+  habHeaderFormat habTagCrt datRsaExpLength datRsaTableLen datEccHashSizes datFlagsAlwaysBit datFlagsUsedShift
   datFlagsCountShift)
 end Gen
 
@@ -37,12 +37,9 @@ source constant makes this theorem (and the path theorems that `decide` the same
 theorem generated_constants_agree :
     -- certificate block v1 header "<4s2H6I": "cert", major, minor, header size, flags, build, image length, count, table length
     Gen.cbV1HeaderFormat = "<4s2H6I" ∧ Gen.cbV1HeaderWidths = [4, 2, 2, 4, 4, 4, 4, 4, 4] ∧
-    Gen.cbV1Signature = [0x63, 0x65, 0x72, 0x74] ∧ Gen.cbV1Alignment = 16 ∧ Gen.cbV1CertLenFormat = "<I" ∧
-    Gen.cbV1HeaderOrder = ["self.SIGNATURE", "major_version", "minor_version", "self.SIZE", "self.flags",
-      "self.build_number", "self.image_length", "self.cert_count", "self.cert_table_length"] ∧
+    Gen.cbV1Signature = [0x63, 0x65, 0x72, 0x74] ∧ Gen.cbV1Alignment = 16 ∧
     -- certificate block v2.1 header "<4s2HL": "chdr", minor, major, size
     Gen.cbV21HeaderFormat = "<4s2HL" ∧ Gen.cbV21HeaderWidths = [4, 2, 2, 4] ∧ Gen.cbV21Magic = [0x63, 0x68, 0x64, 0x72] ∧
-    Gen.cbV21HeaderOrder = ["self.MAGIC", "minor_format_version", "major_format_version", "self.cert_block_size"] ∧
     -- RKH table geometry
     Gen.rkhtV1Slots = 4 ∧ Gen.rkhV1Size = 32 ∧ Gen.rkhtMaxKeys = 4 ∧ Gen.rsaHashName = "sha256" ∧
     -- root key record flags: written (`_calculate_flags`) and read (`parse`) at the same positions
@@ -64,7 +61,7 @@ theorem generated_constants_agree :
     Gen.ahabEccHashByBits = [(256, "sha256"), (384, "sha384"), (521, "sha512")] ∧
     -- HAB
     Gen.habTagKeyPublic = 0xE1 ∧ Gen.habAlgPkcs1 = 0x21 ∧ Gen.habAlgEcdsa = 0x27 ∧ Gen.habTagCrt = 0xD7 ∧
-    Gen.habHeaderFormat = ">BHB" ∧ Gen.habRsaItemFormat = ">4B2H" ∧ Gen.habEccItemFormat = ">8B" ∧
+    Gen.habHeaderFormat = ">BHB" ∧
     Gen.habEccKeyType = [("secp256r1", 0x4B), ("secp384r1", 0x4D), ("secp521r1", 0x4E)] ∧
     -- debug credential RoT meta
     Gen.datRsaExpLength = 3 ∧ Gen.datRsaTableLen = 128 ∧ Gen.datEccHashSizes = [(32, 256), (48, 384), (66, 512)] ∧
